@@ -4,6 +4,7 @@ import GqlProofs.Grammar.ParserFacts
 import GqlProofs.Grammar.PrintSchema
 import GqlProofs.Parser.SoundSchemaTop
 import GqlProofs.Parser.FwdSchemaTop
+import GqlProofs.Parser.RetSchema
 /-
   C06 — the schema parser accepts exactly the type-system grammar, faithfully.
 
@@ -374,6 +375,18 @@ theorem C06_parse_print_items {dk : Kind} (hdk : DescKind dk) (items : List SIte
       d'.erasePos = (setBuiltIn b (items.foldl SchemaDoc.add SchemaDoc.empty)).erasePos :=
   parseSchemaSrc_items hdk items hok src b inp htok
 
+/-- every tree the schema parser returns is printable (its `BuiltIn` flags are those of the source) … -/
+theorem C06_parse_printable (src : Nat) (b : Bool) (inp : Bytes) (d : SchemaDoc) (h : parseSchemaSrc 0 src b inp = .ok d) :
+    PrintableSchema d :=
+  parseSchemaSrc_printable src b inp d h
+
+/-- … so **parse ∘ print ∘ parse = parse** (up to positions): unparse an accepted schema document,
+    write the tokens in any way the lexer reads back, parse again with the same `BuiltIn` flag -/
+theorem C06_parse_print_parse (src src' : Nat) (b : Bool) (inp inp' : Bytes) (d : SchemaDoc)
+    (h : parseSchemaSrc 0 src b inp = .ok d) (htok : tokensOf inp' = some (printSchema d)) :
+    ∃ d', parseSchemaSrc 0 src' b inp' = .ok d' ∧ d'.erasePos = d.erasePos :=
+  parseSchemaSrc_print_parse src src' b inp inp' d h htok
+
 /-- the pieces, bottom-up -/
 theorem C06_parse_print_description {dk : Kind} (hdk : DescKind dk) (d : Bytes) (a : AS) (σ' : Stream)
     (hs : Starts a.σ (printDescK dk d) σ') (hfol : d = [] → NoDesc σ') :
@@ -482,3 +495,5 @@ theorem C06_parse_print_directive_definition {dk : Kind} (hdk : DescKind dk) (d 
 #print axioms C06_parse_print_type_definition
 #print axioms C06_parse_print_extension
 #print axioms C06_parse_print_directive_definition
+#print axioms C06_parse_printable
+#print axioms C06_parse_print_parse
